@@ -2,14 +2,14 @@
 Require Extraction.
 Require Import ExtrOcamlBasic.
 From Gokrb5.lib Require Import Bytes JV.
-From Gokrb5.model Require Import Keytab CCache GSSToken Crypto GSSVerify PAData Replay Network APReq Spnego HttpClient KDCRep DER DERCodec ClientSM ClientPairs Krb5Conf Hosts LenOctets Flags Framing PAC GoASN1 APReqBytes SpnegoBytes KDCRepBytes.
+From Gokrb5.model Require Import Keytab CCache GSSToken Crypto GSSVerify PAData Replay Network APReq Spnego HttpClient KDCRep DER DERCodec ClientSM ClientPairs ASExchange Krb5Conf Hosts LenOctets Flags Framing PAC GoASN1 APReqBytes SpnegoBytes KDCRepBytes.
 Extraction "model.ml" jv
   kt_unmarshal_j kt_marshal_j kt_getkey_j
   wrap_marshal_j wrap_unmarshal_j mic_marshal_j mic_unmarshal_j wrap_verify_j mic_verify_j
   nfold_j derive_key_j checksum_j verify_checksum_j decrypt_j crypt_check_j encrypt_with_j string_to_key_j
   des3_random_to_key_j key_from_password_j replay_run_j replay_conc_j send_to_kdc_j send_to_kdc_visible_j verify_apreq_j serve_j accept_sec_context_j http_do_j asrep_verify_j tgsrep_verify_j
   cc_unmarshal_j cc_getentry_j cc_contains_j cc_getentries_j cc_client_j
-  client_run_j client_pairs_j new_as_req_j referrals_j
+  client_run_j client_pairs_j as_exchange_j new_as_req_j referrals_j
   c16_parse_j c16_resolve_j c16_bool_j c16_dur_j c16_etypes_j c16_auf_j c16_rso_j c16_getkdcs_j c16_getkpasswd_j
   der_encode_j der_decode_j der_len_j parse_len_j enc_int_j dec_int_j enc_time_j dec_time_j
   marshal_len_j get_length_j len_hdr_bytes_j add_app_tag_j
